@@ -97,8 +97,11 @@ spec("C01",
 def des(name, monitor, bmax, deadline=300, bmin=0, **opts):
     o = dict(opts)
     o["monitor"] = monitor
+    # the driver only generates programs that respect the documented preconditions, so a library abort, a
+    # sanitizer report or a signal in one of them is a failure of the library in the behaviour under check
+    # (and ends the exploration of that branch): it is reported as a violation, signature crash:...
     return dict(name=name, harness="des", opts=o, bound_min=bmin, bound_max=bmax, deadline=deadline,
-                run_timeout=20)
+                run_timeout=20, crash_is_violation=True)
 
 
 def deep(job, bmax, xb=3, deadline=2400):
@@ -356,6 +359,10 @@ def c07_jobs(tier):
     jobs.append(des("cap2-hog", "pool", b, dl, procs=2, prios="0,0", budget=8, pool=2,
                     ops="pacq1,pacq2,prel1,prel2,hold0,hold1,int0,int1,exit",
                     script0="pacq2,hold1,prel2,pacq2,hold1,prel2,pacq2,hold1", script1="pacq2,hold1,prel2"))
+    # holders parked in a bare yield (no awaitable entry) with a resume pending when they are preempted or stopped
+    jobs.append(des("cap3-yield", "pool", b, dl, procs=3, prios="0,1,2", budget=4, pool=3,
+                    ops="pacq1,pacq2,ppre2,ppre3,prel1,prel2,yield,resume0,resume1,hold0,hold1,int0,stop0,exit",
+                    script0="pacq2,yield,prel2", script1="hold1,resume0,hold1", script2="hold1,ppre3,hold1"))
     # amounts in the 64-bit range (a pool of bytes)
     jobs.append(des("cap8Gi", "pool", b, dl, procs=3, prios="0,1,2", budget=4, pool=8589934592,
                     ops="pacq4294967296,pacq8589934592,pacq1,ppre4294967296,prel4294967296,prel1,hold0,hold1,int0,exit",
